@@ -44,6 +44,13 @@ class TimeoutDict(Generic[K, V]):
         self._items[key] = value
         self._accessed(key)
 
+    def pop(self, key, default=None):
+        """Remove an item right away and return it (or the default if it is
+        not there); this does not affect the timeout of any other item."""
+        if self._recently_accessed is not None:
+            self._recently_accessed.discard(key)
+        return self._items.pop(key, default)
+
     def _start_over(self):
         """Clear _recently_accessed, set the timeout"""
         self._timeout = asyncio.get_running_loop().call_later(self.timeout, self._tick)
